@@ -264,6 +264,57 @@ func cliOnce(p *progen.Program, sandbox string, go10 genOptsC10) (o genOutcomeC1
 }
 
 // RunC10 is one C10 run: one (program, options), N map-order schedules.
+// canaryWant is what the fixed program came out as when this process first generated it.
+var canaryWant string
+
+func canaryCheck(res *world.Result, s *simrt.Sim, outDir string) {
+	if canaryWant != "" && len(res.Failures) > 0 {
+		return
+	}
+	s.SetMapOrder(simrt.MapSorted)
+	p := progen.Canary()
+	got := generateOnce(p, render(p), outDir+"-canary", genOptsC10{})
+	os.RemoveAll(outDir + "-canary")
+	cur := ""
+	switch {
+	case got.panic != "":
+		cur = "panic: " + firstLine(got.panic)
+	case !got.ok:
+		cur = "error: " + got.err
+	default:
+		var parts []string
+		for _, k := range sortedKeysOf(got.files) {
+			parts = append(parts, k+"="+got.files[k])
+		}
+		cur = strings.Join(parts, " ") + " | " + strings.Join(got.req, " ; ")
+	}
+	if canaryWant == "" {
+		canaryWant = cur
+		res.Count("c10.canary-baselines", 1)
+		if !got.ok {
+			res.Failf("C10/harness", "the fixed program does not generate: %s", first80(cur))
+		}
+		return
+	}
+	res.Count("c10.canary-regenerations", 1)
+	if cur != canaryWant {
+		res.Failf("C10/process-state-leak", "a fixed program, generated again after this one, no longer comes out as it did when this process first generated it: %s", first80(diffCanary(canaryWant, cur)))
+	}
+}
+
+func diffCanary(a, b string) string {
+	if strings.HasPrefix(b, "error: ") || strings.HasPrefix(b, "panic: ") || strings.HasPrefix(a, "error: ") {
+		return "first " + first80(a) + ", now " + b
+	}
+	as, bs := strings.Fields(a), strings.Fields(b)
+	for i := 0; i < len(as) && i < len(bs); i++ {
+		if as[i] != bs[i] {
+			return "first " + as[i] + ", now " + bs[i]
+		}
+	}
+	return "outputs of different length"
+}
+
 func RunC10(cfg simrt.Config, o world.Opts) *world.Result {
 	res := &world.Result{}
 	if o.Trace {
@@ -284,6 +335,12 @@ func RunC10(cfg simrt.Config, o world.Opts) *world.Result {
 	}
 	outDir := filepath.Join(base, fmt.Sprintf("w%d", o.Worker), "c10out")
 	s.Inline(func() {
+		// a fixed program is generated before the first program of this process and again after
+		// every program: whatever was generated in between, it comes out the same
+		// (both times in every run, so that a run is the same sequence of steps wherever in a
+		// process's life it happens)
+		canaryCheck(res, s, outDir)
+		defer canaryCheck(res, s, outDir)
 		p := progen.Gen(progen.Options{MaxFiles: 5, MaxDefs: 5, Invalid: true, CapsWords: true, Unhashable: true, Annotations: true, Consts: true, ConstRefs: true, Unions: true, Exceptions: true, Defaults: true,
 			SameNames: true, Recursive: true, RecDefaults: true, StructConsts: true, WantService: simrt.Flip("c10.want-service", 0.7), GoNames: simrt.Flip("c10.go-names", 0.5)})
 		var g genOptsC10
